@@ -639,12 +639,12 @@ public:
 					{
 						rapidjson::PrettyWriter<StringBuffer, TEncoding, rapidjson::UTF8<>> writer(buffer);
 						writer.SetIndent(options.formatOptions.paddingChar, options.formatOptions.paddingCharNum);
-						mRootJson.Accept(writer);
+						CheckWriteResult(mRootJson.Accept(writer));
 					}
 					else
 					{
 						rapidjson::Writer<StringBuffer, TEncoding, rapidjson::UTF8<>> writer(buffer);
-						mRootJson.Accept(writer);
+						CheckWriteResult(mRootJson.Accept(writer));
 					}
 					*arg = buffer.GetString();
 				}
@@ -657,12 +657,12 @@ public:
 					{
 						rapidjson::PrettyWriter<AutoOutputStream, TEncoding, rapidjson::AutoUTF<uint32_t>> writer(eos);
 						writer.SetIndent(options.formatOptions.paddingChar, options.formatOptions.paddingCharNum);
-						mRootJson.Accept(writer);
+						CheckWriteResult(mRootJson.Accept(writer));
 					}
 					else
 					{
 						rapidjson::Writer<AutoOutputStream, TEncoding, rapidjson::AutoUTF<uint32_t>> writer(eos);
-						mRootJson.Accept(writer);
+						CheckWriteResult(mRootJson.Accept(writer));
 					}
 				}
 			}, mOutput);
@@ -671,6 +671,14 @@ public:
 	}
 
 private:
+	static void CheckWriteResult(bool result)
+	{
+		if (!result) {
+			throw SerializationException(SerializationErrorCode::OutOfRange,
+				"Unable to write JSON: the document contains a value which cannot be represented (NaN, Infinity or invalid UTF sequence)");
+		}
+	}
+
 	static rapidjson::UTFType ToRapidUtfType(const Convert::Utf::UtfType utfType)
 	{
 		switch (utfType)
